@@ -195,6 +195,8 @@ def evalUnitName (ctx : Ctx) : Expr → Outcome (NameMap × Numeric)
     -- the constant and the named units are raised the way a value is (`Number::pow`, each name
     -- standing for a base unit)
     let res ← Number.pow ⟨lv, lu⟩ e
+    -- a constant that is not a finite number is refused; whether a machine float is finite is outside the model
+    if res.value == .float then .unsupported "float constant in conversion target" else
     pure (res.unit, res.value)
   | .binop .shl _ _ | .binop .shr _ _ => .err .generic
   | .binop .and l r => do
